@@ -208,6 +208,18 @@ def gen_template(rng, reserved_p=0.5):
     return {"text": "{" + sep.join(parts) + "}", "members": members}
 
 
+def gen_templates(rng, n, reserved_p=0.5):
+    """n templates with pairwise different texts (the cache key covers the hash of the template text; the model
+    identifies a template by its index)"""
+    res, texts = [], set()
+    while len(res) < n:
+        t = gen_template(rng, reserved_p)
+        if t["text"] not in texts:
+            texts.add(t["text"])
+            res.append(t)
+    return res
+
+
 def render(tpl, sub, attrs, outputs):
     """the members (document order, repeated names kept) the template renders to for this subject, None if the
     rendering is not a JSON object"""
@@ -267,55 +279,193 @@ def gen_holder(rng, idx, keys, ids, templates, allow_bad=True):
     return h
 
 
-def gen_sign(rng, nholders, templates, holders):
-    sub, attrs, outputs = gen_subject(rng)
+def gen_override(rng, templates, ttls=None):
+    ov = {"ttl_ns": None, "tpl": None, "claims_tpl": None}
+    if rng.random() < 0.6:
+        ov["ttl_ns"] = rng.choice(ttls or ([t for t in TTLS if t] + ([BAD_TTLS[0]] if rng.random() < 0.1 else [])))
+    if rng.random() < 0.6:
+        t = rng.randrange(len(templates))
+        ov["tpl"] = t
+        ov["claims_tpl"] = templates[t]["text"]
+    return ov
+
+
+def gen_sign(rng, nholders, templates, holders, subjects=None, variants=None):
+    """subjects / variants: small pools of (subject id, attributes, outputs) and of rule-level overrides to draw
+    from, so that the same subject meets the same and other finalizer instances again (cases with a token cache)"""
+    if subjects and rng.random() < 0.85:
+        sub, attrs, outputs = copy.deepcopy(rng.choice(subjects))
+    else:
+        sub, attrs, outputs = gen_subject(rng)
     op = {"op": "sign", "h": rng.randrange(nholders), "sub": sub, "attrs": attrs, "outputs": outputs, "ov": None}
     if rng.random() < 0.03:
         op["sub"] = None
-    if rng.random() < 0.3:
-        ov = {"ttl_ns": None, "tpl": None, "claims_tpl": None}
-        if rng.random() < 0.6:
-            ov["ttl_ns"] = rng.choice([t for t in TTLS if t] + ([BAD_TTLS[0]] if rng.random() < 0.1 else []))
-        if rng.random() < 0.6:
-            t = rng.randrange(len(templates))
-            ov["tpl"] = t
-            ov["claims_tpl"] = templates[t]["text"]
-        op["ov"] = ov
-    renders = {}
-    for t in {holders[op["h"]]["tpl"], (op["ov"] or {}).get("tpl")}:
-        if t is not None:
-            renders[str(t)] = render(templates[t], op["sub"], attrs, outputs) if op["sub"] is not None else None
-    op["renders"] = renders
+    if variants is not None:
+        op["ov"] = copy.deepcopy(rng.choice(variants))
+    elif rng.random() < 0.3:
+        op["ov"] = gen_override(rng, templates)
+    set_renders(op, templates, holders)
     return op
 
 
-def gen_signer_case(rng, pool):
+def set_renders(op, templates, holders):
+    renders = {}
+    for t in {holders[op["h"]]["tpl"], (op["ov"] or {}).get("tpl")}:
+        if t is not None:
+            renders[str(t)] = (render(templates[t], op["sub"], op["attrs"], op["outputs"])
+                               if op["sub"] is not None else None)
+    op["renders"] = renders
+
+
+CACHED_TTLS = [None, 10_000_000_000, 3_600_000_000_000, 90_250_000_000, 600_000_000_000, 30_000_000_000]
+CACHE_MAX_MS = 2000   # a case with a cache and no ticks must be over within this time (else it is repeated) ...
+# ... and every TTL of such a case has a cache lifetime (TTL - 5 s) that is not positive or at least twice as long
+assert all(t is None or t <= 5_000_000_000 or t - 5_000_000_000 >= 2 * CACHE_MAX_MS * 10**6 for t in TTLS + CACHED_TTLS)
+
+
+def gen_signer_case(rng, pool, cache=None):
+    """cache: None = decide here; True: the finalizers run with the process-wide in-memory cache in the request
+    context, subjects and rule-level variants are drawn from small pools so that cache entries are met again"""
+    if cache is None:
+        cache = rng.random() < 0.5
     allow_bad = rng.random() < 0.6
     keys = pick_keys(rng, pool, allow_bad)
     ids = Ids()
-    templates = [gen_template(rng) for _ in range(rng.choice([1, 2, 3]))]
+    templates = gen_templates(rng, rng.choice([1, 2, 3]))
     nh = rng.choice([1, 1, 1, 2, 2, 3])
     holders = [gen_holder(rng, i, keys, ids, templates, allow_bad) for i in range(nh)]
-    if nh > 1 and rng.random() < 0.3:
+    if nh > 1 and rng.random() < (0.5 if cache else 0.3):
         # a second finalizer on a copy of the first one's key store (same keys, same ids)
         holders[1]["store"] = copy.deepcopy(holders[0]["store"])
         holders[1]["raw"] = raw_of(holders[1]["store"])
         holders[1]["password"] = holders[0]["password"]
         holders[1]["key_id"] = holders[0]["key_id"]
+        if cache and rng.random() < 0.6:
+            # ... and the same issuer name: the two signers have the same hash
+            holders[1]["name"] = holders[0]["name"]
+            if rng.random() < 0.5:
+                for f in ("ttl_ns", "tpl", "claims_tpl"):
+                    holders[1][f] = holders[0][f]
+    subjects = variants = None
+    if cache:
+        for h in holders:
+            if rng.random() < 0.7:
+                h["ttl_ns"] = rng.choice(CACHED_TTLS)   # mostly TTLs above the cache leeway: tokens are stored
+        subjects = [gen_subject(rng) for _ in range(rng.choice([1, 2, 2, 3]))]
+        if rng.random() < 0.5:
+            # same subject id, other attributes / outputs: another cache entry
+            s0 = subjects[0]
+            subjects.append((s0[0], dict(s0[1], age=s0[1]["age"] + 1), s0[2]) if rng.random() < 0.5 else
+                            (s0[0], s0[1], dict(s0[2], n=s0[2]["n"] + 1)))
+        # the prototype, a variant that differs from it in the TTL only (they must not share tokens), others
+        variants = [None, None, {"ttl_ns": rng.choice(CACHED_TTLS[1:]), "tpl": None, "claims_tpl": None}] + \
+                   [gen_override(rng, templates) for _ in range(rng.choice([0, 1, 2]))]
+        if rng.random() < 0.4:
+            # an override that spells out the prototype's own TTL: same cache entries as the prototype
+            h0 = holders[0]
+            variants.append({"ttl_ns": h0["ttl_ns"] if h0["ttl_ns"] else 300_000_000_000, "tpl": None,
+                             "claims_tpl": None})
     ops = []
-    for _ in range(rng.choice([3, 4, 5, 6, 8, 10])):
+    for _ in range(rng.choice([3, 4, 5, 6, 8, 10]) + (2 if cache else 0)):
         r = rng.random()
-        if r < 0.6:
-            ops.append(gen_sign(rng, nh, templates, holders))
-        elif r < 0.78:
+        if r < (0.7 if cache else 0.6):
+            earlier = [o for o in ops if o["op"] == "sign"]
+            if cache and earlier and rng.random() < 0.35:
+                ops.append(copy.deepcopy(rng.choice(earlier)))   # the same execution again: served from the cache?
+                ops[-1].pop("inside", None)
+            else:
+                ops.append(gen_sign(rng, nh, templates, holders, subjects, variants))
+            if cache and ops[-1]["sub"] is not None and rng.random() < 0.12:
+                # the key store of the executing finalizer is reloaded while Execute runs (after the cache key has
+                # been calculated, before the signer is asked); often followed by a reload that brings the key back
+                h = ops[-1]["h"]
+                store = gen_store(rng, keys, ids, holders[h]["password"], allow_bad)
+                ops[-1]["inside"] = {"store": store, "raw": raw_of(store)}
+                if rng.random() < 0.6:
+                    back = [holders[h]["store"]] + [o["store"] for o in ops[:-1] if o["op"] == "reload" and o["h"] == h]
+                    store = copy.deepcopy(rng.choice(back))
+                    ops.append({"op": "reload", "h": h, "store": store, "raw": raw_of(store)})
+                    ops.append(copy.deepcopy(ops[-2]))
+                    ops[-1].pop("inside", None)
+        elif r < (0.8 if cache else 0.78):
             ops.append({"op": "jwks"})
         else:
             h = rng.randrange(nh)
-            store = gen_store(rng, keys, ids, holders[h]["password"], allow_bad)
+            if cache and rng.random() < 0.4:
+                # reload of an unchanged / earlier store: the active key stays or comes back
+                earlier = [holders[h]["store"]] + [o["store"] for o in ops if o["op"] == "reload" and o["h"] == h]
+                store = copy.deepcopy(rng.choice(earlier))
+            else:
+                store = gen_store(rng, keys, ids, holders[h]["password"], allow_bad)
             ops.append({"op": "reload", "h": h, "store": store, "raw": raw_of(store)})
     if not any(o["op"] == "jwks" for o in ops):
         ops.append({"op": "jwks"})
-    return {"fam": "signer", "keys": [{"t": t, "n": n} for t, n in keys], "holders": holders, "ops": ops}
+    case = {"fam": "signer", "keys": [{"t": t, "n": n} for t, n in keys], "holders": holders, "ops": ops}
+    if cache:
+        case["cache"] = {"tick_ms": 0, "max_ms": CACHE_MAX_MS}
+    return case
+
+
+TICK_MS = 100
+
+
+def tick_ttl(m, tick_ms=TICK_MS):
+    """a TTL whose cache lifetime (TTL - 5 s) is m ticks and a half: an entry stored in tick a is alive in tick a + m
+    and gone in tick a + m + 1, wherever inside the first 2/5 of their ticks the two operations happen"""
+    return 5_000_000_000 + m * tick_ms * 10**6 + tick_ms * 10**6 // 2
+
+
+def gen_timed_cache_case(rng, pool, tick_ms=TICK_MS):
+    """token cache on the wall clock: one or two finalizers (fast keys), prototype and variants with cache lifetimes
+    of 0.5 / 1.5 / 2.5 ticks (and never cached / cached for long), the same subjects again inside and outside the
+    lifetime, reloads in between"""
+    ec = [k for k in pool if not is_rsa(k[0])]
+    keys = [list(k) for k in rng.sample(ec, 3)]
+    ids = Ids()
+    templates = gen_templates(rng, 2, reserved_p=0.3)
+    short = [tick_ttl(m, tick_ms) for m in (0, 1, 1, 2, 2)]
+    other = [2_000_000_000, 5_000_000_000, None, 3_600_000_000_000]
+    nh = rng.choice([1, 1, 2])
+    holders = []
+    for i in range(nh):
+        while True:
+            h = gen_holder(rng, i, keys, ids, templates, allow_bad=False)
+            if loadable_without_key_id(h["store"]):
+                break
+        h["key_id"] = ""
+        h["ttl_ns"] = rng.choice(short + short + other)
+        holders.append(h)
+    if nh == 2 and rng.random() < 0.6:
+        holders[1].update(store=copy.deepcopy(holders[0]["store"]), raw=raw_of(holders[0]["store"]),
+                          password=holders[0]["password"], name=holders[0]["name"])
+    subjects = [gen_subject(rng) for _ in range(2)]
+    variants = [None, None, {"ttl_ns": rng.choice(short), "tpl": None, "claims_tpl": None},
+                gen_override(rng, templates, short + other[:2])]
+    ops = []
+    tick = 0
+    while tick < 9 and len(ops) < 10:
+        if ops and rng.random() < 0.15:
+            h = rng.randrange(nh)
+            store = copy.deepcopy(holders[h]["store"]) if rng.random() < 0.5 else \
+                gen_store(rng, keys, ids, holders[h]["password"], allow_bad=False)
+            ops.append({"op": "reload", "h": h, "store": store, "raw": raw_of(store)})
+            tick += 1
+            continue
+        op = gen_sign(rng, nh, templates, holders, subjects, variants)
+        if ops and rng.random() < 0.5:
+            # the previous execution again (same instance, same subject): inside or outside the lifetime
+            prev = next((o for o in reversed(ops) if o["op"] == "sign"), None)
+            if prev is not None:
+                op = copy.deepcopy(prev)
+        if op["sub"] is None:
+            op["sub"] = subjects[0][0]
+            set_renders(op, templates, holders)
+        op["at"] = tick
+        ops.append(op)
+        tick += rng.choice([0, 1, 1, 1, 2, 3])
+    ops.append({"op": "jwks"})
+    return {"fam": "signer", "keys": [{"t": t, "n": n} for t, n in keys], "holders": holders, "ops": ops,
+            "cache": {"tick_ms": tick_ms, "max_ms": 0}}
 
 
 def gen_conc_case(rng, pool):
